@@ -305,6 +305,80 @@ def _fc_check(ctx):
                   "traces_validated_against_impl": len(terms) - len(mism), "correspondence_mismatches": len(mism), "oracle_failures": len(bad_oracle),
                   "samples": [{"sequence": s} for s in seqs[:3]], "coq_replay_s": round(coq_s, 1)}
 
+def run_conc(scenarios, wd, tag):
+    """Run concdrive scenarios in parallel. Returns list of (scenario_text, result_dict_or_None, raw)."""
+    from concurrent.futures import ThreadPoolExecutor
+    d = os.path.join(wd, tag); os.makedirs(d, exist_ok=True)
+    def one(i):
+        p = os.path.join(d, "s%04d.scn" % i)
+        open(p, "w").write(scenarios[i])
+        r = subprocess.run([os.path.join(C.BIN, "concdrive"), p], env=dict(os.environ, GOLOG_LOG_LEVEL="fatal"), stdout=subprocess.PIPE, stderr=subprocess.PIPE, text=True, timeout=120)
+        try:
+            return scenarios[i], json.loads(r.stdout), r.stderr[-500:]
+        except Exception:
+            return scenarios[i], None, (r.stdout[-300:] + r.stderr[-500:])
+    with ThreadPoolExecutor(C.NCPU) as ex:
+        return list(ex.map(one, range(len(scenarios))))
+
+
+K1, K2, K3 = "120607070701010a", "120607070702020b", "120607070703030c"
+
+def _c12_check(ctx):
+    """C12: schedules of rate-limited writers and Flush callers over the yield points of flushTick/Flush on the real store; afterwards flushes
+    keep succeeding; every writer must return."""
+    prop, tier, wd, rng = ctx["prop"], ctx["tier"], ctx["wd"], ctx["rng"]
+    C.go_build(["concdrive"])
+    n = 96 if tier == "quick" else 3000
+    scen = []
+    cdir = os.path.join(C.VERIF, "corpus", prop)
+    if os.path.isdir(cdir):
+        scen += [open(os.path.join(cdir, fn)).read() for fn in sorted(os.listdir(cdir)) if fn.endswith(".scn")]
+    if ctx.get("replay") and ctx["replay"].endswith(".scn"):
+        scen, n = [open(ctx["replay"]).read()], 0
+    for _ in range(n):
+        th = [("W1", "put %s 6161" % K1), ("W2", "put %s 6262" % K2)]
+        if rng.random() < 0.3:
+            th.append(("W3", rng.choice(["remove %s" % K3, "put %s 6363" % K3])))
+        nf = rng.choice((1, 2, 2, 3))
+        th += [("F%d" % (i + 1), "flush") for i in range(nf)]
+        names = [t[0] for t in th]
+        sched = [rng.choice(names) for _ in range(rng.randint(8, 40))]
+        setup = "setup put %s 6060\nsetup flush\n" % K3 if rng.random() < 0.5 else ""
+        scen.append("cfg bits=8 burst=1 rate=1e-9 timeout_ms=1500\n" + setup + "".join("thread %s %s\n" % t for t in th) + "schedule " + " ".join(sched) + "\nfree flush\n")
+    res = run_conc(scen, wd, "c12")
+    viol, nontriv, waited = [], set(), 0
+    for txt, r, raw in res:
+        if r is None:
+            raise C.CheckError("concdrive failed: " + raw)
+        pts = [e["point"] for e in r["events"]]
+        if "store.flushTick.beforeWait" in pts:
+            waited += 1
+            nontriv.add(txt)
+        bad = None
+        if r["stuck"]:
+            ws = [t for t in r["stuck"] if t.startswith("W")]
+            bad = "thread(s) %s still blocked %s ms after the schedule although %d later Flush calls succeeded" % (r["stuck"], 1500, r["flushes_in_free_run"])
+        else:
+            for t in r["threads"]:
+                if not t["res"].startswith(("ROk", "RExists")):
+                    bad = "call %s %s failed: %s" % (t["name"], t["op"], t["res"])
+        if bad and len(viol) < 3:
+            rp = C.save_replay(prop, "sched-%s.scn" % hashlib.sha1(txt.encode()).hexdigest()[:10], "# C12 fails on the implementation: %s\n# replay: cd /verif && ./check C12 --replay <this file>\n%s" % (bad, txt))
+            viol.append(("schedule: " + bad, rp, True))
+    return viol, {"evaluations": len(scen), "distinct_nontrivial": len(nontriv), "schedules_in_which_a_writer_reached_the_wait": waited,
+                  "samples": [{"scenario": scen[-1].strip().split("\n")}],
+                  "schedule_rule": "2-3 rate-limited writers (BurstRate 1, measured flush rate forced to 1e-9) and 1-3 explicit Flush callers are stepped through the yield points "
+                                   "(index lookup, primary put, flushTick after measuring / before waiting, commit after the index flush, Flush after commit) in a random order of 8-40 steps; "
+                                   "then all run freely while the controller keeps calling Flush every 2 ms; verdict: every call returns within 1.5 s; non-trivial = a writer reached the wait"}
+
+CHECKS["C12"] = Spec(
+    prop_file="C12.v",
+    weights=None,
+    witnesses=["F9-lost-wakeup"],
+    tools=["witness", "concdrive"],
+    rule="see schedule_rule",
+    extra=_c12_check,
+)
 CHECKS["C14"] = Spec(
     prop_file="C14.v",
     weights=None,
